@@ -443,7 +443,8 @@ Proof. exact ex_iso_hypotheses. Qed.
 Print Assumptions C04_iso_example.
 
 (* ==== the bridge from the STORE to the isometry theorem (Contr/TensorProdBridge*.v) ================================================ *)
-From PTN Require Import TTN.InvSem TTN.Canon Contr.TensorProdBridge Contr.TensorProdBridgeProofs Contr.TensorProdBridgeStore.
+From PTN Require Import TTN.InvSem TTN.Canon Contr.TensorProdBridge Contr.TensorProdBridgeProofs Contr.TensorProdBridgeStore
+  Contr.TensorProdBridgeCanon.
 
 (* (b) the denotation of a glued diagram (gvalue: SUM over the bound wires and over one index per glued pair of the product of
    the atoms, the second wire of a pair reading the index of the first) depends only on the multisets of atoms, bound wires
@@ -461,6 +462,31 @@ Theorem C04_gvalue_plain : forall (R : Type) (zero one : R) (add mul : R -> R ->
   gvalue R zero one add mul wires_of dim tbl (of_sarr t) rho = value R zero one add mul wires_of dim tbl t rho.
 Proof. exact gvalue_plain. Qed.
 Print Assumptions C04_gvalue_plain.
+
+(* a tensordot of glued diagrams denotes np.tensordot: when the two diagrams do not interfere (td_ok: the atoms of one do not
+   touch the summed / redirected wires of the other, the sources of the gluings are not summed on the other side, the contracted
+   axes are summed on neither side) the value of Blocks.g_tensordot a b ia ib is the sum, over one index per contracted axis pair
+   (equal wires: the common wire; different wires: the index lives on a's wire and b reads it through the gluing), of
+   value(a) . value(b) *)
+Theorem C04_gvalue_g_tensordot : forall (R : Type) (zero one : R) (add mul : R -> R -> R), comm_semiring zero one add mul ->
+  forall (wires_of : nat -> list wire) (dim : wire -> nat) (tbl : nat -> list nat -> R) (a b : garr) (ia ib : list nat) (c : garr),
+  g_tensordot a b ia ib = Some c ->
+  let pairs := combine (map (fun i => nth i (gaxes a) 0) ia) (map (fun i => nth i (gaxes b) 0) ib) in
+  let same := map fst (filter (fun p => Nat.eqb (fst p) (snd p)) pairs) in
+  let diff := filter (fun p => negb (Nat.eqb (fst p) (snd p))) pairs in
+  td_ok wires_of a b diff ->
+  forall rho, gvalue R zero one add mul wires_of dim tbl c rho
+              = sum_bnd R zero add dim (same ++ map fst diff)
+                  (fun r => mul (gvalue R zero one add mul wires_of dim tbl a r)
+                                (gvalue R zero one add mul wires_of dim tbl b (glue_asg diff r))) rho.
+Proof. exact gvalue_g_tensordot. Qed.
+Print Assumptions C04_gvalue_g_tensordot.
+
+Example C04_td_ok_example :
+  g_tensordot tdx_a tdx_b [1] [1] = Some {| gaxes := [0; 10]; gatoms := [0; 1]; gbnd := []; gglue := [(1, 11)] |} /\
+  td_ok tdx_wires tdx_a tdx_b [(1, 11)].
+Proof. exact tdx_ok. Qed.
+Print Assumptions C04_td_ok_example.
 
 (* the tree of a store re-rooted at the centre (the DFS of distance_to_node returning the tree): every node once; the
    children of a node are its neighbours other than the one it was entered from, which is one step closer to the centre *)
@@ -521,6 +547,77 @@ Theorem C04_single_site_is_full_contraction : forall (R : Type) (zero one : R) (
     forall rho, gvalue R zero one add mul W1 D tbl g rho = gvalue R zero one add mul W2 D tbl gl rho.
 Proof. exact single_site_is_full_contraction. Qed.
 Print Assumptions C04_single_site_is_full_contraction.
+
+(* the structural hypotheses are CONSEQUENCES of having been produced by canonical_form / move_orthogonalization_center: the
+   extended store invariant and "one open leg per node" are preserved, the recorded centre is c, and every tensor off the centre is
+   a plain atom (exactly the Q factor of the QR call that produced it, on exactly its axes); with C03's iso_check theorem *)
+Theorem C04_canonical_form_plain : forall (s : store) (oc : option id) (c : id) (m : mode) (rid : id) (cs' : cstore),
+  wfs s -> aget rid (nodes s) = None -> canonical_form (s, oc) c m rid = Some cs' ->
+  wfs (fst cs') /\ snd cs' = Some c /\ amem c (nodes (fst cs')) = true /\ plain_off (fst cs') c /\ iso_check cs' = true /\
+  (one_open s -> one_open (fst cs')).
+Proof. exact canonical_form_plain. Qed.
+Print Assumptions C04_canonical_form_plain.
+
+Theorem C04_move_center_plain : forall (cs : cstore) (c : id) (m : mode) (rid : id) (cs' : cstore) (c0 : id),
+  wfs (fst cs) -> aget rid (nodes (fst cs)) = None -> snd cs = Some c0 -> plain_off (fst cs) c0 ->
+  move_center cs c m rid = Some cs' ->
+  wfs (fst cs') /\ (one_open (fst cs) -> one_open (fst cs')) /\ exists c', snd cs' = Some c' /\ plain_off (fst cs') c'.
+Proof. exact move_center_plain. Qed.
+Print Assumptions C04_move_center_plain.
+
+(* END TO END.  After canonical_form(c) on ANY state (one open leg per node) satisfying the extended store invariant (every store
+   built by the model's operations does: C02), under the kernel contract on the recorded QR calls of the result, the centre
+   shortcuts of scalar_product() and of single_site_operator_expectation_value compute the full contractions.  The only other
+   hypotheses are the offsets of the conjugate copy (beyond the wires / atoms of the result). *)
+Theorem C04_canonical_form_shortcuts : forall (R : Type) (zero one : R) (add mul : R -> R -> R),
+  comm_semiring zero one add mul ->
+  forall (woff aoff : nat) (s : store) (oc : option id) (c : id) (m : mode) (rid : id) (cs' : cstore) (tbl : nat -> list nat -> R),
+  wfs s -> one_open s -> aget rid (nodes s) = None -> canonical_form (s, oc) c m rid = Some cs' ->
+  let s' := fst cs' in
+  next_wire s' + 2 <= woff -> next_atom s' < aoff -> qr_contracts R zero one add mul aoff s' tbl ->
+  let bra := conj_store woff aoff s' in
+  snd cs' = Some c /\
+  (exists g gl, scalar_product woff aoff s' None = Some g /\ scalar_product woff aoff s' (snd cs') = Some gl /\
+     forall rho, gvalue R zero one add mul (pair_wires s' bra) (pair_dim s' bra) tbl g rho
+                 = gvalue R zero one add mul (pair_wires s' bra) (pair_dim s' bra) tbl gl rho) /\
+  (let na := next_atom s' in
+   let nw := next_wire s' in
+   let oc' := open_wire s' c in
+   let dd := wdim s' oc' in
+   let W1 := ext_wires (pair_wires s' bra) na [nw; oc'] in
+   let W2 := ext_wires (pair_wires s' bra) na [nw; S nw] in
+   let D := ext_dim (pair_dim s' bra) [nw; S nw] dd in
+   exists g gl, tp_expectation_value woff aoff s' None [(c, [dd; dd])] = Some g /\
+                tp_expectation_value woff aoff s' (snd cs') [(c, [dd; dd])] = Some gl /\
+     forall rho, gvalue R zero one add mul W1 D tbl g rho = gvalue R zero one add mul W2 D tbl gl rho).
+Proof. exact canonical_form_shortcuts. Qed.
+Print Assumptions C04_canonical_form_shortcuts.
+
+Theorem C04_move_center_shortcuts : forall (R : Type) (zero one : R) (add mul : R -> R -> R),
+  comm_semiring zero one add mul ->
+  forall (woff aoff : nat) (cs : cstore) (c0 c : id) (m : mode) (rid : id) (cs' : cstore) (tbl : nat -> list nat -> R),
+  wfs (fst cs) -> aget rid (nodes (fst cs)) = None -> snd cs = Some c0 -> amem c0 (nodes (fst cs)) = true ->
+  amem c (nodes (fst cs)) = true -> iso_check cs = true -> plain_off (fst cs) c0 -> one_open (fst cs) ->
+  move_center cs c m rid = Some cs' ->
+  let s' := fst cs' in
+  next_wire s' + 2 <= woff -> next_atom s' < aoff -> qr_contracts R zero one add mul aoff s' tbl ->
+  let bra := conj_store woff aoff s' in
+  snd cs' = Some c /\
+  (exists g gl, scalar_product woff aoff s' None = Some g /\ scalar_product woff aoff s' (snd cs') = Some gl /\
+     forall rho, gvalue R zero one add mul (pair_wires s' bra) (pair_dim s' bra) tbl g rho
+                 = gvalue R zero one add mul (pair_wires s' bra) (pair_dim s' bra) tbl gl rho) /\
+  (let na := next_atom s' in
+   let nw := next_wire s' in
+   let oc' := open_wire s' c in
+   let dd := wdim s' oc' in
+   let W1 := ext_wires (pair_wires s' bra) na [nw; oc'] in
+   let W2 := ext_wires (pair_wires s' bra) na [nw; S nw] in
+   let D := ext_dim (pair_dim s' bra) [nw; S nw] dd in
+   exists g gl, tp_expectation_value woff aoff s' None [(c, [dd; dd])] = Some g /\
+                tp_expectation_value woff aoff s' (snd cs') [(c, [dd; dd])] = Some gl /\
+     forall rho, gvalue R zero one add mul W1 D tbl g rho = gvalue R zero one add mul W2 D tbl gl rho).
+Proof. exact move_center_shortcuts. Qed.
+Print Assumptions C04_move_center_shortcuts.
 
 (* the structural hypotheses in executable form (evaluated per instance) *)
 Theorem C04_canon_hyp_sound : forall (woff aoff : nat) (s : store) (c : id), canon_hyp woff aoff s c = true ->
